@@ -236,10 +236,25 @@ def emit_cif(atoms: List[dict], null: str = "?", extra_categories: str = "", lab
     def lab_comp(nm):
         return {"A": "ADE", "C": "CYT", "G": "GUA", "U": "URA"}.get(nm, nm) if alias else nm
 
+    ligands = {tuple(k) for k in (dialect or {}).get("ligands", [])}
+    chain_order = []
     for a in atoms:
+        if a["chain"] not in chain_order:
+            chain_order.append(a["chain"])
+
+    def entity(a):
+        # with entity tables (see entity_categories): one polymer entity per chain, ligands in a non-polymer entity
+        if not (dialect and dialect.get("entities")):
+            return "1"
+        if (a["chain"], a["resseq"], a["icode"]) in ligands:
+            return str(len(chain_order) + 1)
+        return str(chain_order.index(a["chain"]) + 1)
+
+    for a in atoms:
+        is_ligand = (a["chain"], a["resseq"], a["icode"]) in ligands
         vals = [
-            a["record"], str(a["serial"]), a["element"] or null, lab_atom(a["name"]), a["altloc"] or null, lab_comp(a["resname"]), a["chain"], "1",
-            str(seq[(a["chain"], a["resseq"], a["icode"])]), a["icode"] or null,
+            "HETATM" if is_ligand else a["record"], str(a["serial"]), a["element"] or null, lab_atom(a["name"]), a["altloc"] or null, lab_comp(a["resname"]), a["chain"], entity(a),
+            "." if is_ligand else str(seq[(a["chain"], a["resseq"], a["icode"])]), a["icode"] or null,
             f"{a['x']:.3f}", f"{a['y']:.3f}", f"{a['z']:.3f}", (f"{a['occ']:.2f}" if a["occ"] is not None else null), f"{a['bfac']:.2f}",
             (str(a["charge"]) if a["charge"] else null), str(a["resseq"]), a["resname"], a["chain"], a["name"], str(a["model"]),
         ]
@@ -256,6 +271,29 @@ def emit_cif(atoms: List[dict], null: str = "?", extra_categories: str = "", lab
         out.append(" ".join(toks))
     out.append("#")
     return "\n".join(out) + "\n"
+
+
+def entity_categories(atoms: List[dict], ligands) -> str:
+    """_entity and _entity_poly loops matching emit_cif(..., dialect={'entities': True, 'ligands': ligands}): one
+    polyribonucleotide entity per chain whose one-letter sequence follows label_seq_id (N for non-standard names), and
+    one non-polymer entity holding the ligand residues"""
+    ligands = {tuple(k) for k in ligands}
+    chain_order, seqs, seen = [], {}, set()
+    for a in atoms:
+        if a["chain"] not in chain_order:
+            chain_order.append(a["chain"])
+        key = (a["chain"], a["resseq"], a["icode"])
+        if key not in seen:
+            seen.add(key)
+            seqs.setdefault(a["chain"], []).append(a["resname"] if a["resname"] in ("A", "C", "G", "U") else "N")
+    out = ["loop_", "_entity.id", "_entity.type"]
+    for k, ch in enumerate(chain_order):
+        out.append(f"{k + 1} polymer")
+    out.append(f"{len(chain_order) + 1} non-polymer")
+    out += ["#", "loop_", "_entity_poly.entity_id", "_entity_poly.type", "_entity_poly.pdbx_seq_one_letter_code_can"]
+    for k, ch in enumerate(chain_order):
+        out.append(f"{k + 1} polyribonucleotide {''.join(seqs[ch])}")
+    return "\n".join(out)
 
 
 class CifError(Exception):
@@ -544,6 +582,16 @@ def st_tables(max_models=3, max_chains=3, max_residues=5, max_atoms=8, altlocs=T
                 atoms[j]["x"] = round(atoms[i]["x"] + d, 3) if atoms[i]["x"] + d <= 999.999 else round(atoms[i]["x"] - d, 3)
                 atoms[j]["y"] = atoms[i]["y"]
                 atoms[j]["z"] = atoms[i]["z"]
+                rest = [k for k in same if k != j]
+                if rest and draw(st.integers(0, 2)) == 0:
+                    # three alternative positions on a line (0.2 A and 0.25 A apart, the outer two 0.45 A): the middle
+                    # one is the nearest neighbour of both others - a pairwise reading must still compare the outer two
+                    k = rest[draw(st.integers(0, len(rest) - 1))]
+                    sgn = 1 if atoms[j]["x"] >= atoms[i]["x"] else -1
+                    atoms[j]["x"] = round(atoms[i]["x"] + sgn * 0.2, 3)
+                    atoms[k]["x"], atoms[k]["y"], atoms[k]["z"] = round(atoms[i]["x"] + sgn * 0.45, 3), atoms[i]["y"], atoms[i]["z"]
+                    occs = draw(st.sampled_from([(0.5, 0.2, 0.4), (0.4, 0.2, 0.5), (0.5, 0.3, 0.5), (1.0, 0.5, 0.7)]))
+                    atoms[i]["occ"], atoms[j]["occ"], atoms[k]["occ"] = occs
         return atoms
 
     return build()
